@@ -26,6 +26,7 @@ import random
 import urllib.request
 
 from ak import conn_http
+from ak import mcaller_http
 from ak.mcaller_http import MCallerHttp, method_http
 from mc import sched
 
@@ -149,6 +150,8 @@ class _Caller(MCallerHttp):
         return self.get_conn().post(path, data={"k": 1}, headers=headers)
 
 
+_MODSTATE = sched.ModuleState(conn_http, mcaller_http)   # taken at import: pristine process
+_LEAKS = [0]
 _EXCLUDE = {"__init__", "__str__", "__repr__", "_make_opener", "_log_request", "_log_response"}
 _real_build_opener = urllib.request.build_opener
 
@@ -198,6 +201,8 @@ class _Harness:
 
 def _build_world():
     random.seed(0)
+    if _MODSTATE.restore():
+        _LEAKS[0] += 1
     base = conn_http.HttpConn("http://h:8080")
     bauth = conn_http.BAuthConn(base, "user", "pw")
     prefixed = conn_http.HttpConn(bauth, adapters=conn_http.RequestAdapterAddPathPrefix("/pfx"))
@@ -391,7 +396,7 @@ def _visit_factory(name, acc, seed):
 def run_shard(shard, tier, seed, acc):
     name, bound, start, r, m = shard
     threads, mode = SCENARIOS[name]
-    rng = random.Random(seed * 7919 + hash((name, start, r)) % 1000) if seed else None
+    rng = random.Random(seed * 7919 + sum(map(ord, name)) * 31 + start * 7 + r) if seed else None
     visit = _visit_factory(name, acc, seed)
     with _Harness(mode):
         def run(dev):
@@ -401,6 +406,8 @@ def run_shard(shard, tier, seed, acc):
         root = [[0, start]] if start != 0 else []
         nrun, complete = sched.explore(run, root, bound, visit, shard=(r, m), expired=acc.expired, rng=rng)
         acc.note_sum("executions_including_shard_roots", nrun)
+        acc.note_sum("module_level_state_restored", _LEAKS[0])
+        _LEAKS[0] = 0
 
 
 def replay(case, acc):
